@@ -24,6 +24,10 @@ fn valid_heads(ctx: &mut Ctx) -> Vec<Vec<u8>> {
         "POST /upload.html HTTP/1.1\r\nHost: speed.example\r\nContent-Length: 5\r\n\r\n".into(),
         "GET / HTTP/1.0\r\nHost: h\r\n\r\n".into(),
         "OPTIONS * HTTP/1.1\r\nHost: h\r\n\r\n".into(),
+        // origin-form targets with a query (the authority comes from Host, the path and the query from the target)
+        "GET /ws/chat?room=42&token=abc HTTP/1.1\r\nHost: example.org\r\nUpgrade: websocket\r\n\r\n".into(),
+        "POST /upload.html?x=1&y= HTTP/1.1\r\nHost: speed.example:8443\r\nContent-Length: 3\r\n\r\n".into(),
+        "GET /? HTTP/1.1\r\nHost: h\r\n\r\n".into(),
         // line ends without the CR (the parser takes them): all of them, the last one only, the first one only, no header at all
         "CONNECT example.org:443 HTTP/1.1\nHost: example.org:443\n\n".into(),
         "CONNECT example.org:443 HTTP/1.1\r\nHost: example.org:443\r\n\n".into(),
@@ -244,6 +248,23 @@ pub fn run(mut ctx0: Ctx) {
                     let rl: Vec<&str> = lines.next().unwrap().split(' ').collect();
                     if obs.method != rl[0] {
                         ctx.oracle_failure("request_differs", &format!("method {:?} for head {:?}", obs.method, head));
+                    }
+                    // the target: path and query as the client wrote them (origin-form, or behind the authority of an absolute
+                    // form), the authority from the target or else from Host
+                    if let Ok(u) = obs.uri.parse::<http::Uri>() {
+                        let got_pq = u.path_and_query().map(|p| p.as_str().to_string()).unwrap_or_default();
+                        let want_pq = if rl[1].starts_with('/') {
+                            rl[1].to_string()
+                        } else if let Some(rest) = rl[1].strip_prefix("http://") {
+                            rest.find('/').map(|i| rest[i..].to_string()).unwrap_or_else(|| "/".to_string())
+                        } else {
+                            String::new()
+                        };
+                        if !want_pq.is_empty() && got_pq != want_pq {
+                            ctx.oracle_failure("request_differs", &format!("target {:?} recognised with path and query {:?} (URI {}) for {}", rl[1], got_pq, obs.uri, q));
+                        }
+                    } else if rl[1] != "*" {
+                        ctx.oracle_failure("request_differs", &format!("target {:?} recognised as {:?} for {}", rl[1], obs.uri, q));
                     }
                     let want_headers: Vec<String> = lines
                         .filter(|l| !l.is_empty())
